@@ -383,9 +383,24 @@ class Empty(Exception):
 class Queue:
     """queue.Queue restricted to the non-blocking operations pamiq_core uses; each is a yield point."""
 
+    class _Cond:
+        def notify(self, n=1):
+            pass
+
+        def notify_all(self):
+            pass
+
     def __init__(self, maxsize=0):
         self.maxsize = maxsize
         self.items = []
+        # the attributes of queue.Queue that code reaching into its internals expects (the container itself, its
+        # mutex and condition variables): the container is the same list object, so such code acts on the real content
+        self.queue = self.items
+        self.mutex = RLock()
+        self.not_empty = Queue._Cond()
+        self.not_full = Queue._Cond()
+        self.all_tasks_done = Queue._Cond()
+        self.unfinished_tasks = 0
 
     def put_nowait(self, item):
         import queue as _q
